@@ -13,8 +13,8 @@ import (
 )
 
 var (
-	quick    = copyh.FBudget{Rand: 700, Shared: 500, Sched: 250, SchedShared: 350, Reps: 0}
-	thorough = copyh.FBudget{Rand: 5000, Shared: 4000, Sched: 1500, SchedShared: 2500, Reps: 2, Exh: 40, ExhReps: 4}
+	quick    = copyh.FBudget{Rand: 900, Shared: 650, Sched: 350, SchedShared: 450, Reps: 0}
+	thorough = copyh.FBudget{Rand: 3000, Shared: 2500, Sched: 1000, SchedShared: 1500, Reps: 1, Exh: 25, ExhReps: 4, Exh2: 6}
 )
 
 // main: the plain binary (no controlled schedules; bin/check builds the test binary).
